@@ -913,5 +913,6 @@ func (c *fnCtx) recursionObl(in ssa.Instruction, args []*Val) {
 	if m0 == "" || m1 == "" {
 		return
 	}
-	c.addObl("dec", in.Pos(), fmt.Sprintf("(and (>= %s 0) (< %s %s))", m0, m1, m0), "recursion: "+c.ct.Decreases.Src+" decreases at "+c.eng.srcText(in.Pos()))
+	// named by the measure only (the n-th recursive call), so that an edit of the call's arguments does not rename it
+	c.addObl("dec", in.Pos(), fmt.Sprintf("(and (>= %s 0) (< %s %s))", m0, m1, m0), "recursion: "+c.ct.Decreases.Src+" decreases at each recursive call")
 }
